@@ -133,27 +133,27 @@ void harness(void)
 #endif
             VF_COVER(!conv_stored, "fault-without-buffer");
         } else {
-            VF_ASSERT(ls_count[F_ADOM] == 1 && ls_find(F_ADOM, 0, conv_len) != 0,
+            VF_ASSERT(ls_only(F_ADOM, 0, conv_len),
                       "C04: host-name rules are applied to exactly the A-label form produced by the converter");
             int drc = ls_value(F_ADOM, 0, conv_len)->ret;
             if (drc != 0) {
-                VF_ASSERT(rc == drc && ls_count[F_SPECIAL] + ls_count[F_TLD] == 0, "C04: a host-name error on the A-label form is returned unchanged");
+                VF_ASSERT(rc == drc, "C04: a host-name error on the A-label form is returned unchanged");
             } else if (!tld_check) {
-                VF_ASSERT(rc == 0 && ls_count[F_SPECIAL] + ls_count[F_TLD] == 0, "C08: TLD checking off: accepted, no reserved/TLD lookup");
+                VF_ASSERT(rc == 0, "C08: TLD checking off: accepted whatever the reserved list and the TLD table would say");
                 VF_COVER(1, "accepted");
             } else {
-                VF_ASSERT(ls_count[F_SPECIAL] == 1 && ls_find(F_SPECIAL, 0, conv_len) != 0, "C09: reserved check on the whole A-label domain, first");
+                VF_ASSERT(ls_only(F_SPECIAL, 0, conv_len), "C09: the reserved check is applied to the whole A-label domain");
                 long dot = -1;
                 for (unsigned i = 0; i < conv_len; i++)
                     if (conv_copy[i] == '.') dot = i;
                 if (ls_value(F_SPECIAL, 0, conv_len)->ret != 0) {
-                    VF_ASSERT(rc == TLD_TYPE_SPECIAL && ls_count[F_TLD] == 0, "C09: reserved domain is class special, before any TLD lookup");
+                    VF_ASSERT(rc == TLD_TYPE_SPECIAL, "C09: a reserved domain is class special whatever the TLD table says");
                     VF_COVER(1, "special");
                 } else if (dot < 0) {
-                    VF_ASSERT(rc == -EEAV_DOMAIN_NOT_FQDN && ls_count[F_TLD] == 0, "C07: single-label non-reserved domain is not FQDN");
+                    VF_ASSERT(rc == -EEAV_DOMAIN_NOT_FQDN, "C07: single-label non-reserved domain is not FQDN");
                     VF_COVER(1, "not-fqdn");
                 } else {
-                    VF_ASSERT(ls_count[F_TLD] == 1 && ls_find(F_TLD, dot + 1, conv_len) != 0,
+                    VF_ASSERT(ls_only(F_TLD, dot + 1, conv_len),
                               "C07: TLD lookup on exactly the last A-label (after the last dot of the converter output)");
                     VF_ASSERT(rc == ls_value(F_TLD, dot + 1, conv_len)->ret, "C07: the class / invalid-TLD code is returned unchanged");
                     VF_COVER(rc > 0, "tld-class");
